@@ -316,6 +316,18 @@ func project(ev *event, c call, cs *fcase, ct contract, a fm, res result) {
 	size := float64(m)
 	ztol := 1e-9 * (na + 1)
 	otol := 1e-8 * size
+	if cs.CondK {
+		// the symbolic tolerance of the specification: OrthK * 2^-53 * cond * m, cond = (a * b or sqrt(a * b)) * 2^e2
+		cond := cs.Cond.A.f() * cs.Cond.B.f()
+		if cs.Cond.Sqrt {
+			cond = math.Sqrt(cond)
+		}
+		cond = math.Ldexp(cond, cs.Cond.E2)
+		if t := float64(cs.OrthK) * math.Ldexp(1, -53) * cond * size; t < otol {
+			otol = t
+		}
+		ev.CondTol = true
+	}
 	rtol := 1e-8 * (1 + na) * size
 	afx, ok := toFx(a)
 	ev.Afx, ev.FxOk = afx, ok
@@ -332,6 +344,9 @@ func project(ev *event, c call, cs *fcase, ct contract, a fm, res result) {
 			switch i {
 			case 0:
 				ev.F1, ev.Has1, ev.Pat1 = fx, true, patterns(f[i], ztol, otol)
+				if _, nc := dims(f[i]); finite(f[i]) {
+					ev.Orth = fmt.Sprintf("%.3g/%.3g", dist(mul(tr(f[i]), f[i]), ident(nc)), otol)
+				}
 			case 1:
 				ev.F2, ev.Has2, ev.Pat2 = fx, true, patterns(f[i], ztol, otol)
 			case 2:
